@@ -65,6 +65,7 @@ var Registry = map[string]func(c *Ctx, arg string) error{
 			return nil
 		}
 		RunSyncStopQueued(c)
+		RunSyncP2PAfterIdle(c)
 		if c.Thorough() {
 			RunSyncRandom(c, 150)
 		} else {
